@@ -4,7 +4,7 @@
 From Coq Require Import Extraction ExtrOcamlBasic.
 From PV Require Import Base MachineInt VarintParams GenArith GenLoops Varint Utf8 DataModel Ser De Fixint
   Cobs Crc SerFlavors DeFlavors IoChunks Accumulator WireFormat
-  Schema SchemaDecl SchemaSer SchemaConv SchemaOps Key KeyOps KeySpec SchemaFmt FmtOps MaxSizeDecl MaxSize Conform Dyn JsonOf SchemaImpls.
+  Schema SchemaDecl SchemaSer SchemaConv SchemaOps Key KeyOps KeySpec SchemaFmt FmtOps MaxSizeDecl MaxSize Conform Dyn JsonOf DynSizeDefs SchemaImpls.
 Extraction Language OCaml.
 Extraction "../runner/model.ml"
   le_bytes of_le_bytes
@@ -24,4 +24,4 @@ Extraction "../runner/model.ml"
   to_slice_crc_cobs to_vec_crc_cobs to_allocvec_crc_cobs to_recorder
   take_from_bytes_ptr from_io from_io_c to_io_c take_from_bytes_crc from_bytes_cobs take_from_bytes_cobs
   acc_new feed drive_chunk
-  B O conv schema_de schema_ok schema_wf depth key_const key_owned spec_key stream pseudocode pseudocode_nested used_types max_size mhas conforms schema_skip erase dyn_ser from_slice_dyn json_of unamb in_scope small_seqs json_wf reenc_scope schema_of emit_ok sty_ok.
+  B O conv schema_de schema_ok schema_wf depth key_const key_owned spec_key stream pseudocode pseudocode_nested used_types max_size mhas conforms schema_skip erase dyn_ser from_slice_dyn json_of unamb in_scope small_seqs json_wf reenc_scope schema_of emit_ok sty_ok dno_zero jsize dslope doffset dyn_de.
